@@ -91,6 +91,8 @@ type Exec struct {
 
 	baseLevel int
 	stack     []pending
+	facts     map[int32]bool // conditions already decided on this path (by term id)
+	pc        []*Term        // asserted conditions of the current path
 
 	stats      Stats
 	violations []Violation
@@ -102,6 +104,7 @@ type Exec struct {
 	deadline   time.Time
 	maxPaths   int
 	truncated  bool
+	seed       uint64
 }
 
 func NewExec(ts *TermStore, solver *Solver, params map[string]int64) *Exec {
@@ -165,11 +168,23 @@ func (ex *Exec) branchV(cond *Term, val uint64) bool {
 	if cond.IsConst() {
 		return cond.k != 0
 	}
+	if d, ok := ex.facts[cond.id]; ok {
+		return d
+	}
+	if cond.op == OpBNot {
+		if d, ok := ex.facts[cond.a.id]; ok {
+			return !d
+		}
+	}
 	if ex.pos < ex.replayN {
 		ev := ex.events[ex.pos]
 		ex.pos++
 		if ev.kind == evAssume {
 			panic(fmt.Sprintf("replay divergence: expected assume event at %d, got branch", ex.pos-1))
+		}
+		ex.facts[cond.id] = ev.dir
+		if ev.kind == evChoice {
+			ex.pc = append(ex.pc, ex.dirTerm(cond, ev.dir))
 		}
 		if ex.pos == ex.replayN && ev.kind == evChoice {
 			// this is the flipped decision: assert it now
@@ -191,6 +206,7 @@ func (ex *Exec) branchV(cond *Term, val uint64) bool {
 	ex.count(r)
 	if r == Unsat {
 		ex.stats.ForcedBranches++
+		ex.facts[cond.id] = dir
 		ex.push(event{evForced, dir, val}, false, nil)
 		return dir
 	}
@@ -202,6 +218,8 @@ func (ex *Exec) branchV(cond *Term, val uint64) bool {
 		m = nil
 	}
 	ex.stack = append(ex.stack, pending{alt, m})
+	ex.facts[cond.id] = dir
+	ex.pc = append(ex.pc, ex.dirTerm(cond, dir))
 	ex.push(event{evChoice, dir, val}, true, cond)
 	return dir
 }
@@ -215,6 +233,13 @@ func (ex *Exec) count(r SatResult) {
 	default:
 		ex.stats.Unknown++
 	}
+}
+
+func (ex *Exec) dirTerm(cond *Term, dir bool) *Term {
+	if dir {
+		return cond
+	}
+	return ex.ts.BNot(cond)
 }
 
 func (ex *Exec) assertDir(cond *Term, dir bool) {
@@ -249,8 +274,12 @@ func (ex *Exec) Assume(cond *Term) {
 		if ev.kind != evAssume {
 			panic(fmt.Sprintf("replay divergence: expected branch event at %d, got assume", ex.pos-1))
 		}
+		ex.pc = append(ex.pc, cond)
+		ex.facts[cond.id] = true
 		return
 	}
+	ex.pc = append(ex.pc, cond)
+	ex.facts[cond.id] = true
 	ex.solver.Push()
 	ex.solver.Assert(cond)
 	ex.events = append(ex.events, event{evAssume, true, 0})
@@ -403,6 +432,8 @@ func (ex *Exec) runPath(p pending, run func()) {
 	ex.pos = 0
 	ex.model = p.model
 	ex.observed = ex.observed[:0]
+	ex.facts = map[int32]bool{}
+	ex.pc = ex.pc[:0]
 	ex.fuel = ex.maxFuel
 	ex.depth = 0
 	end := ex.runGuarded(run)
@@ -413,7 +444,7 @@ func (ex *Exec) runPath(p pending, run func()) {
 			s.End = end.reason + ": " + end.detail
 		}
 		if ex.model != nil {
-			s.Model = ex.modelNamed(ex.model)
+			s.Model = ex.modelNamed(ex.diversify(ex.model))
 		}
 		ex.samples = append(ex.samples, s)
 	}
@@ -463,6 +494,53 @@ func (ex *Exec) excludeTerms(label string) []*Term {
 		if ok {
 			out = append(out, ex.ts.BNot(c))
 		}
+	}
+	return out
+}
+
+// diversify perturbs the variables of a model pseudo-randomly while keeping every
+// asserted condition of the path true (evaluated, not solved); used for the sampled
+// assignments that are replayed natively for translation validation.
+func (ex *Exec) diversify(m Model) Model {
+	out := Model{}
+	for k, v := range m {
+		out[k] = v
+	}
+	holds := func() bool {
+		c := &evalCtx{m: out, memo: map[int32]uint64{}}
+		for _, t := range ex.pc {
+			if c.eval(t) == 0 {
+				return false
+			}
+		}
+		return true
+	}
+	if !holds() {
+		return m
+	}
+	seed := ex.seed*2654435761 + uint64(ex.pathNo)*40503 + 12345
+	next := func() uint64 {
+		seed ^= seed << 13
+		seed ^= seed >> 7
+		seed ^= seed << 17
+		return seed
+	}
+	if len(ex.pc) > 400 {
+		return m
+	}
+	for _, v := range ex.ts.varSeq {
+		old, had := out[v.id]
+		for try := 0; try < 3; try++ {
+			out[v.id] = next() & mask(v.w)
+			if holds() {
+				had = true
+				break
+			}
+			if had || true {
+				out[v.id] = old
+			}
+		}
+		_ = had
 	}
 	return out
 }
